@@ -114,7 +114,13 @@ def impl(case):
                         break
                 res.append(["ok", o is again, direct is not None and o.dumps() == direct[1], direct[0] if direct else None])
             except RuntimeError as e:
-                res.append(["err", "RuntimeError", c.compose_path in str(e) or "metadata" in str(e)])
+                try:
+                    second = getattr(c, acc)
+                    res.append(["err", "RuntimeError-then-object", False])     # the failed load left an object in the cache
+                except RuntimeError:
+                    res.append(["err", "RuntimeError", c.compose_path in str(e) or "metadata" in str(e)])
+                except Exception as e2:
+                    res.append(["err", "RuntimeError-then-" + type(e2).__name__, False])
             except Exception as e:
                 res.append(["err", type(e).__name__, False])
         model_in = [path[len(work):], sorted(set(p[len(work):] for p in existing) | {path[len(work):]}), listing]
